@@ -268,6 +268,34 @@ def tree_edits(program):
         yield f"W16 packet outside net/client|server ({pf})", with_extra(pf, [packet("Last", "Other", [field("q", "char")])]), None
 
 
+def reuse_pairs():
+    """(label, valid tree, ill-formed tree, raw override) - the second tree edits a type the first tree DEFINES validly, so a
+    generator object that remembers the first run's types is put to the test (regenerate-after-edit workflow)."""
+    use = lambda t, n="Use": struct(n + t, [field("b", t)])  # noqa: E731
+    for other in ("pub", "net", "map", "net/server"):
+        good_enum = enum("R1", "char", [("A", 1), ("B", 2)])
+        first = {other: [good_enum, use("R1")]}
+        yield f"W4 existing enum value becomes non-integer in {other}", first, {other: [enum("R1", "char", [("A", 1), ("B", "two")]), use("R1")]}, None
+        yield f"W4 existing enum gets a string underlying type in {other}", first, {other: [enum("R1", "string", [("A", 1), ("B", 2)]), use("R1")]}, None
+        yield f"W4 existing enum gets a duplicate ordinal in {other}", first, {other: [enum("R1", "char", [("A", 1), ("B", 1)]), use("R1")]}, None
+        yield f"W2 existing enum removed but still referenced in {other}", first, {other: [use("R1")]}, None
+        good_struct = struct("R2", [field("q", "char")])
+        first = {other: [good_struct, use("R2")]}
+        yield f"W2 existing struct removed but still referenced in {other}", first, {other: [use("R2")]}, None
+        yield f"W2 existing struct's field gets an undefined type in {other}", first, {other: [struct("R2", [field("q", "Nope")]), use("R2")]}, None
+        yield f"W2 existing struct now contains itself in {other}", first, {other: [struct("R2", [field("q", "R2")]), use("R2")]}, None
+        yield f"W5 existing struct gets a duplicate field in {other}", first, {other: [struct("R2", [field("q", "char"), field("q", "char")]), use("R2")]}, None
+        yield f"W1 existing struct becomes an enum AND stays a struct in {other}", first, {other: [good_struct, enum("R2", "char", [("A", 1)]), use("R2")]}, None
+    for pf in ("net/client", "net/server"):
+        first = {pf: [packet("Last", "Other", [field("q", "char")])]}
+        for victim, rule in (("PacketAction", "action"), ("PacketFamily", "family")):
+            nodes = specs.prelude(2)
+            for n in nodes:
+                if n.tag == "enum" and n.get("name") == victim:
+                    n.kids = [k for k in n.kids if k.get("name") not in ("Other", "Last")]
+            yield f"W16 the packet's {rule} is removed from {victim} ({pf})", first, first, {"net": specs.protocol_xml(nodes)}
+
+
 # ---------------------------------------------------------------- execution
 def rejected(files, raw=None):
     d = loader.scratch_dir("c17")
@@ -276,6 +304,33 @@ def rejected(files, raw=None):
         return genpipe.run_generator(d + "/xml", d + "/out")
     finally:
         shutil.rmtree(d, ignore_errors=True)
+
+
+def rejected_by_reused_generator(valid_files, files, raw=None):
+    """The generator object that has just generated the valid tree is asked again after the tree was edited on disk:
+    what it remembers from the first run must not let the ill-formed tree through.  -> True / False / None (n/a)"""
+    d = loader.scratch_dir("c17r")
+    try:
+        genpipe.write_tree(valid_files, d + "/xml", n_families=2)
+
+        def rewrite():
+            shutil.rmtree(d + "/xml")
+            genpipe.write_tree(files, d + "/xml", n_families=2, raw=raw)
+
+        how, _ = genpipe.run_generator_twice(d + "/xml", d + "/out", rewrite)
+        return None if how == "first-failed" else how == "raised"
+    finally:
+        shutil.rmtree(d, ignore_errors=True)
+
+
+def _judge_reuse_pair(label, first, second, raw):
+    if rejected(first) is not None:
+        raise loader.HarnessError(f"reuse pair '{label}': the first tree is not accepted")
+    if rejected(second, raw) is None:
+        return f"'{label}': the ill-formed tree is accepted by the generator"
+    if rejected_by_reused_generator(first, second, raw) is False:
+        return f"'{label}': the ill-formed tree is accepted by a generator object that generated the valid tree just before (a fresh object rejects it)"
+    return None
 
 
 def program_tree(program, unit=None):
@@ -338,6 +393,12 @@ def _shard(indices):
             if rejected(program_tree(p, unit)) is None:
                 report(f"accepted:{label}", f"{info.host} [{info.ident}] edited by '{label}' ({why}) is accepted by the generator\n{unit.xml()}",
                        {"tier": _TIER, "index": i, "edit": n_edit, "label": label})
+            elif info.ident.startswith("corpus:") or i % 40 == 0:
+                counts["evaluations"] += 1
+                counts["reused_generator_runs"] += 1
+                if rejected_by_reused_generator(program_tree(p), program_tree(p, unit)) is False:
+                    report(f"accepted-on-reuse:{label}", f"{info.host} [{info.ident}] edited by '{label}' ({why}) is accepted by a generator object that generated the unedited tree just before\n{unit.xml()}",
+                           {"tier": _TIER, "index": i, "edit": n_edit, "label": label, "reused": True})
             elif len(samples) < 1:
                 samples.append({"base": info.ident, "edit": label, "edited": unit.xml()})
         if _wants_tree_edits(info, i):
@@ -347,6 +408,12 @@ def _shard(indices):
                 if rejected(files, raw) is None:
                     report(f"accepted:{label}", f"{info.host} [{info.ident}] with tree edit '{label}' is accepted by the generator",
                            {"tier": _TIER, "index": i, "tree_edit": n_edit, "label": label})
+                    continue
+                counts["evaluations"] += 1
+                counts["reused_generator_runs"] += 1
+                if rejected_by_reused_generator(program_tree(p), files, raw) is False:
+                    report(f"accepted-on-reuse:{label}", f"{info.host} [{info.ident}] with tree edit '{label}' is accepted by a generator object that generated the valid tree just before (a fresh object rejects it)",
+                           {"tier": _TIER, "index": i, "tree_edit": n_edit, "label": label, "reused": True})
     return counts, violations, samples
 
 
@@ -375,6 +442,13 @@ def run(tier, seed):
         counts.update(c)
         violations += v
         samples += s
+    for n_pair, (label, first, second, raw) in enumerate(reuse_pairs()):
+        counts["evaluations"] += 2
+        counts["reuse_pairs"] += 1
+        what = _judge_reuse_pair(label, first, second, raw)
+        if what:
+            counts["violations_total"] += 1
+            violations.append({"key": f"reuse-pair:{label}", "what": what, "case": {"tier": tier, "index": 0, "reuse_pair": n_pair}})
     seen, out = set(), []
     for v in violations:
         if v["key"] not in seen:
@@ -387,13 +461,15 @@ def run(tier, seed):
         "base_programs_edited": counts["base_programs"],
         "unit_edits_judged": counts["unit_edits"],
         "tree_edits_judged": counts["tree_edits"],
+        "reused_generator_runs": counts["reused_generator_runs"],
+        "reuse_pairs": counts["reuse_pairs"],
         "edits_not_invalid_per_M9": counts["edits_not_invalid_per_M9"],
         "violations_total": counts["violations_total"],
         "exhaustive": True,
         "rule": "(i) every body of the tier grammar that M9 classifies invalid; (ii) for every valid program every unit-level edit "
         "of the catalogue at every node / insertion site (deduplicated by edited XML), judged when M9 classifies the edited "
         "unit invalid; tree-level edits on corpus programs and every 120th (quick) / 40th (thorough) program; each generator run on a distinct "
-        "ill-formed tree is one case",
+        "ill-formed tree is one case; every tree edit (and the unit edits of corpus programs and every 40th program) is also put to a generator OBJECT that has just generated the unedited tree (generate -> edit the files -> generate again); plus reuse pairs: 40 (valid tree, ill-formed tree) pairs in which the second tree breaks a type the first one defines validly (enum value / underlying type / ordinal, removed or self-containing struct, packet family / action removed from its enum), put to a fresh and to a reused generator object",
         "samples": samples[:3],
     }
     return {"coverage": coverage, "violations": out}
@@ -406,6 +482,11 @@ def replay(case):
     i = int(case["index"])
     p, info = e3.make_program(i, _UNI[i], 0)
     _fix_packet(p)
+    if case.get("reuse_pair") is not None:
+        for n_pair, (label, first, second, raw) in enumerate(reuse_pairs()):
+            if n_pair == int(case["reuse_pair"]):
+                return _judge_reuse_pair(label, first, second, raw)
+        return None
     if case.get("edit") is None and case.get("tree_edit") is None:
         if info.cls == "invalid" and rejected(program_tree(p)) is None:
             return f"[{info.ident}] breaks {info.why} but the generator returned\n{p.node.xml()}"
@@ -413,10 +494,16 @@ def replay(case):
     if case.get("tree_edit") is not None:
         for n_edit, (label, files, raw) in enumerate(tree_edits(p)):
             if n_edit == int(case["tree_edit"]):
+                if case.get("reused"):
+                    ok = rejected_by_reused_generator(program_tree(p), files, raw)
+                    return f"tree edit '{label}' on [{info.ident}] is accepted by a generator object that generated the valid tree just before" if ok is False else None
                 return f"tree edit '{label}' on [{info.ident}] is accepted by the generator" if rejected(files, raw) is None else None
         return None
     for n_edit, (label, unit) in enumerate(unit_edits(p.node)):
         if n_edit == int(case["edit"]):
+            if case.get("reused"):
+                ok = rejected_by_reused_generator(program_tree(p), program_tree(p, unit))
+                return f"[{info.ident}] edited by '{label}' is accepted by a generator object that generated the unedited tree just before\n{unit.xml()}" if ok is False else None
             if wellformed.classify_unit(unit, p.env())[0] == "invalid" and rejected(program_tree(p, unit)) is None:
                 return f"[{info.ident}] edited by '{label}' is accepted by the generator\n{unit.xml()}"
             return None
